@@ -2,6 +2,8 @@ import O4.Lemmas.Obfs4Chunk
 import O4.Lemmas.Obfs4Tx
 import O4.Lemmas.Obfs4EndToEnd
 import O4.Generated.Facts.Obfs4
+import O4.Generated.Facts.Framing
+import O4.Generated.Facts.Drbg
 /-!
 # C01 — obfs4 delivers the exact byte stream under any segmentation; every byte written becomes
 readable without further traffic, including data arriving in the same segment as the handshake
@@ -740,5 +742,22 @@ example :
       = ([105], some (.net "eof"), none, []) := by decide +kernel
 
 theorem toyCrypto_ok : CryptoOK toyCrypto := Obfs4.toyCrypto_ok
+
+
+/-- **structural fact, regenerated from the Go source on every run (go/ast)**: every package-level
+    variable (file-scope `var`) of the packages this property's mechanisms live in
+    (transports/obfs4, transports/obfs4/framing, common/drbg) is one of the names below — error values, fixed byte strings,
+    flags and function hooks that the code only reads after initialisation.  The models treat all
+    other state as owned by one connection / one object; a NEW package-level variable (a cache, a
+    pool, a scratch buffer, a pre-keyed hash shared "to save allocations") is how such state comes
+    to be shared between connections and goroutines, which compiles, passes the tests and typically
+    needs true parallelism or a multi-connection history to misbehave.  Adding one breaks this
+    theorem; the concurrent / multi-connection families of the harness then search for the failing
+    schedule. -/
+theorem no_new_package_level_state :
+    O4.Facts.Obfs4.pkg_vars ⊆ ["ErrInvalidHandshake", "ErrMarkNotFoundYet", "ErrNtorFailed", "ErrReplayedHandshake", "biasedDist", "zeroPadBytes"] ∧
+    O4.Facts.Framing.pkg_vars ⊆ ["ErrAgain", "ErrNonceCounterWrapped", "ErrTagMismatch"] ∧
+    O4.Facts.Drbg.pkg_vars ⊆ [] := by
+  decide
 
 end C01
